@@ -9,4 +9,5 @@ CONSTANTS
   NW = 3
   MaxTime = 40
 INVARIANTS Quiescent StartState PowerOnIndependent
+PROPERTY Terminates
 CHECK_DEADLOCK FALSE
